@@ -198,7 +198,7 @@ ARITH = CLOSED + cs.ISLAMIC + ["Persian Simple", "Persian Arithmetic"]
 
 
 def _ids(tier, seed, islamic=1):
-    return CLOSED + (cs.ISLAMIC if tier == "thorough" else cs.pick(cs.ISLAMIC, seed, islamic)) + ["Persian Simple", "Persian Arithmetic"]
+    return CLOSED + list(cs.ISLAMIC) + ["Persian Simple", "Persian Arithmetic"]          # every variant in both tiers (each is cheap)
 
 
 def _calc(cid):
@@ -229,10 +229,8 @@ def leap(P):
 # ------------------------------------------------------------------------------------------------ year starts
 def _yearstart_params(tier, seed):
     out = [[c, 0, 0] for c in CLOSED]
-    isl = cs.ISLAMIC if tier == "thorough" else cs.pick(cs.ISLAMIC, seed, 2)
-    for c in isl:
-        ks = range(1, 31) if tier == "thorough" else [1 + (seed * 7 + j * 11) % 30 for j in range(4)]
-        out += [[c, "cycle", k] for k in ks]
+    for c in cs.ISLAMIC:
+        out += [[c, "cycle", k] for k in range(1, 31)]          # all 8 variants x all 30 cycle positions in both tiers (< 1 s each)
     for c in ("Persian Simple", "Persian Arithmetic"):
         lo = Ref(c).first or 1
         ws = [(a, min(9378, a + 511)) for a in range(lo, 9379, 512)]
@@ -245,7 +243,7 @@ def _yearstart_params(tier, seed):
        bounds="every year (and max_year + 1): the day number of the first day of the year equals published epoch + published year arithmetic.  "
               "ISO/Gregorian/Julian/Coptic: the closed form over the whole range in one query; Islamic: per position k in the 30-year cycle "
               "(year = 30 c + k, every cycle c; the calculator's accumulation loop then has a concrete trip count); Persian: the "
-              "calculator's precomputed table against the closed form, in 512-year windows (quick: seeded windows / positions; thorough: all)")
+              "calculator's precomputed table against the closed form, in 512-year windows (quick: 3 seeded windows each; thorough: all)")
 def yearstart(P):
     cid, a, b = P
     cal, calc = _calc(cid)
